@@ -13,6 +13,21 @@ CHECKS = {
             "Every byte value, every (slot, code) palette pair for the small formats, every pixel mode and every layout variant is pushed through the real decoder and compared sample by sample with an independent rendering; the decoders are byte-local so the factors cover the pixel function completely within the stated bounds.",
             "Trusted: reference layout writers and colour function in vf/img/formats.py (my reading of the formats); MGE composite table only judged structurally and against mge_viewer2.CMP.",
             "DESIGN.md §2 C16"),
+    "C17": ("model_checking",
+            "deviation-bounded exhaustive exploration of a nondeterministic reference encoder's choice tree; every encoding decoded by the real tool and compared with the original picture",
+            "All encodings of structured pictures reachable with <= d non-default encoder choices (run length/splitting, literal vs repeat, escape use, CM3 copy-left/copy-up/literal/raw line, VEF packet forms and padding) are decoded by the real decoder; d=1 quick, d=2 thorough; choice points are opened at the first/last runs, lines and records (stated in evidence caps).",
+            "Trusted: validity of encodings = reference encoder in vf/img/formats.py. RAT pictures avoid low nibbles >= 8 except for the dedicated known-finding picture.",
+            "DESIGN.md §2 C17"),
+    "C18": ("model_checking",
+            "exhaustive enumeration of the decoders' option cubes (width x rows x skip x pixel mode x header variant x file/pipe) on well-formed files, outputs parsed by an independent PNM/PNG reader",
+            "Every option combination inside the stated cube is run through the real start() entry; header dimensions, exact payload size, skip equivalence and pipe/file equality are checked on each.",
+            "Trusted: independent PNM/PNG readers; 'valid option' = accepted by the tool's own argparse validators.",
+            "DESIGN.md §2 C18"),
+    "C19": ("fault_enumeration",
+            "exhaustive fault enumeration: every prefix, every header/control byte x value alphabet, appended bytes, all short strings, for a minimal valid file of each format, run through the real decoders",
+            "Every enumerated damaged file is decoded in-process; outcome must be a report (exception / non-zero exit / MAX's removal) or a file that is complete w.r.t. its own header. Quick uses a 12-value alphabet and a stated subset of prefixes for the 16 kB raw VEF; thorough uses all 256 values and all prefixes.",
+            "An escaping exception counts as 'reported'. Known genuine defects are matched by input-side features computed by reference stream analysers.",
+            "DESIGN.md §2 C19"),
 }
 
 PENDING_REASON = "check not built yet in this revision (work in progress; will be claimed when its explorer exists)"
